@@ -27,7 +27,8 @@ def shapes(thorough, rnd):
         if pop:
             proto.insert(0, {"op": "adopt", "p": sorted(pop)[0]})
         out.append({"title": "ended by %s with %s" % (end, sorted(pop)), "payloads": payloads, "proto_script": proto, "hows": {p: HOWS for p in payloads},
-                    "allow": (("shutdown", "second") if end == "shutdown" else ("sigint", "second") if end == "sigint" else ("second",)), "end": end, "block": "h1" if "h1" in pop else None})
+                    # a failing payload may race a shutdown() from another thread
+                    "allow": (("shutdown", "second") if end in ("shutdown", "fail") else ("sigint", "second")), "end": end, "block": "h1" if "h1" in pop else None})
     return out
 
 
